@@ -24,9 +24,19 @@ structure Codec where
 
 structure WState where
   hold : List Nat := []             -- `state->hold[0 .. hold_len)`
-  buf : List Nat := []              -- `state->encoded_buff`
+  /-- `state->encoded_buff`, kept as the list of appended pieces, newest first
+  (appending a line is then constant time); its content is `WState.buf`. -/
+  pieces : List (List Nat) := []
+  blen : Nat := 0                   -- `archive_strlen(&state->encoded_buff)`
   emitted : List (List Nat) := []   -- blocks handed to `__archive_write_filter(f->next_filter, …)`, oldest first
   deriving Repr
+
+/-- The bytes of `encoded_buff`. -/
+def WState.buf (s : WState) : List Nat := s.pieces.reverse.flatten
+
+/-- `archive_strcat` / `archive_strappend_char` of a piece of text. -/
+def WState.append (s : WState) (t : List Nat) : WState :=
+  { s with pieces := t :: s.pieces, blen := s.blen + t.length }
 
 /-- `atol8` as used by the `mode` option, followed by `& 0777`: leading octal
 digits; the low nine bits do not depend on how (or whether) the `int64_t`
@@ -48,30 +58,40 @@ def header (c : Codec) (mode : Nat) (name : List Nat) : List Nat :=
 def blockSize (c : Codec) (bpb : Nat) : Nat :=
   if bpb > c.bs0 then bpb else if bpb ≠ 0 then c.bs0 - c.bs0 % bpb else c.bs0
 
-def open_ (c : Codec) (mode : Nat) (name : List Nat) : WState := { buf := header c mode name }
+def open_ (c : Codec) (mode : Nat) (name : List Nat) : WState :=
+  ({} : WState).append (header c mode name)
 
 /-- `for (; length >= LBYTES; length -= LBYTES, p += LBYTES) encode(p, LBYTES);`
 Returns the text appended and the `length < LBYTES` bytes that are left. -/
 def encFull (c : Codec) (d : List Nat) : List Nat × List Nat :=
-  if h : c.lbytes ≤ d.length then
+  -- `length >= LBYTES`, tested on the first LBYTES elements only (keeps the model linear-time)
+  if h : c.lbytes ≤ (d.take c.lbytes).length then
     let r := encFull c (d.drop c.lbytes)
     (c.encLine (d.take c.lbytes) ++ r.1, r.2)
   else ([], d)
 termination_by d.length
-decreasing_by have := c.lpos; simp; omega
+decreasing_by have := c.lpos; simp [List.length_take] at h ⊢; omega
 
-/-- `while (archive_strlen(&state->encoded_buff) >= state->bs) { __archive_write_filter(next, buf, bs); memmove… }` -/
-def flushBs (bs : Nat) (s : WState) : WState :=
-  if h : 0 < bs ∧ bs ≤ s.buf.length then
-    flushBs bs { s with buf := s.buf.drop bs, emitted := s.emitted ++ [s.buf.take bs] }
-  else s
-termination_by s.buf.length
+/-- `while (archive_strlen(&state->encoded_buff) >= state->bs) { __archive_write_filter(next, buf, bs); memmove… }`
+on the buffer content `buf`; returns what is left and the blocks written. -/
+def flushLoop (bs : Nat) (buf : List Nat) : List Nat × List (List Nat) :=
+  if h : 0 < bs ∧ bs ≤ buf.length then
+    let r := flushLoop bs (buf.drop bs)
+    (r.1, buf.take bs :: r.2)
+  else (buf, [])
+termination_by buf.length
 decreasing_by simp; omega
+
+def flushBs (bs : Nat) (s : WState) : WState :=
+  if 0 < bs ∧ bs ≤ s.blen then
+    let r := flushLoop bs s.buf
+    { s with pieces := [r.1], blen := r.1.length, emitted := s.emitted ++ r.2 }
+  else s
 
 /-- "Save remaining bytes." then the `bs` loop. -/
 def encodeRest (c : Codec) (bs : Nat) (s : WState) (d : List Nat) : WState :=
   let r := encFull c d
-  flushBs bs { s with buf := s.buf ++ r.1, hold := r.2 }
+  flushBs bs { s.append r.1 with hold := r.2 }
 
 /-- `archive_filter_uuencode_write` / `archive_filter_b64encode_write`. -/
 def write (c : Codec) (bs : Nat) (s : WState) (d : List Nat) : WState :=
@@ -81,13 +101,14 @@ def write (c : Codec) (bs : Nat) (s : WState) (d : List Nat) : WState :=
     let k := Nat.min (c.lbytes - s.hold.length) d.length
     let hold' := s.hold ++ d.take k
     if hold'.length < c.lbytes then { s with hold := hold' }      -- `return (ret);`
-    else encodeRest c bs { s with hold := [], buf := s.buf ++ c.encLine hold' } (d.drop k)
+    else encodeRest c bs { s.append (c.encLine hold') with hold := [] } (d.drop k)
   else encodeRest c bs s d
 
 /-- `archive_filter_uuencode_close` / `archive_filter_b64encode_close`. -/
 def close (c : Codec) (s : WState) : WState :=
-  let buf := (if s.hold ≠ [] then s.buf ++ c.encLine s.hold else s.buf) ++ c.trailer
-  { hold := [], buf := [], emitted := s.emitted ++ [buf] }
+  let s1 := if s.hold ≠ [] then s.append (c.encLine s.hold) else s
+  let s2 := s1.append c.trailer
+  { hold := [], pieces := [], blen := 0, emitted := s.emitted ++ [s2.buf] }
 
 /-- Everything the filter passed downstream, in order. -/
 def output (s : WState) : List Nat := s.emitted.flatten
